@@ -836,7 +836,7 @@ func (g *G) Program() *Node {
 		// a shebang line at offset 0 is no node: it travels with the first token
 		ps = append([]interface{}{tn("#!/usr/bin/env php" + g.R.Pick("\n", "\n", "\r\n"))}, ps...)
 	}
-	open := g.R.Pick("<?php", "<?php", "<?PHP", "<?Php")
+	open := g.R.Pick("<?php", "<?php", "<?PHP", "<?Php", "<?php", "<?php", "<?PHP", "<?")
 	ps = append(ps, tn(open), tg("", GapNeedWS))
 	nStmts := g.R.Range(1, g.O.MaxStmts)
 	nsMode := g.R.Intn(6) // 0: semicolon namespaces, 1: braced namespaces, else none
@@ -878,7 +878,7 @@ func (g *G) Program() *Node {
 				ss = append(ss, echo, h2)
 				ps = append(ps, echo, h2)
 			}
-			ps = append(ps, tn(g.R.Pick("<?php", "<?PHP")), tg("", GapNeedWS))
+			ps = append(ps, tn(g.R.Pick("<?php", "<?PHP", "<?php", "<?")), tg("", GapNeedWS))
 		}
 	}
 	if !g.O.NoHTML && g.R.Chance(1, 12) {
